@@ -297,10 +297,10 @@ Section Live.
 
   (* ------------------------------------------------------------------ good iterates *)
   Record good (i : it) : Prop := {
-    g_cons : Consistent i; g_qub : Qub_ok i; g_gl : Glrel0 i; g_len : length (ix i) = n; g_L : iL i <= Lbar }.
+    g_facts : facts i; g_qub : Qub_ok i; g_gl : Glrel0 i; g_len : length (ix i) = n; g_L : iL i <= Lbar }.
 
   Lemma good_facts i : good i -> facts i.
-  Proof. intros G. apply consistent_facts; apply G. Qed.
+  Proof. intros G. apply G. Qed.
   Lemma good_nv i : good i -> qubv i = false.
   Proof. intros G. apply qub_ok_not_violated; [now apply good_facts|apply G|apply G]. Qed.
   Lemma good_gam i : good i -> 0 < igam i /\ igam i * iL i = p_Lgamma P /\ igam i <= gam0 /\ gam_min <= igam i.
@@ -373,7 +373,8 @@ Section Live.
     good (ls_next l).
   Proof.
     intros G [Lc Lco Ln Lgl Lq Lls Lsafe] Hlen HL. constructor; try assumption.
-    apply (PP glrel0_halved c0); [apply G|exact Lgl].
+    - now apply consistent_facts.
+    - apply (PP glrel0_halved c0); [apply G|exact Lgl].
   Qed.
 
   (* x_{k+1} = x_k at a completed iteration forces p_k = 0 *)
@@ -520,7 +521,7 @@ Section Live.
       set (ls0 := mkLs c0 (set_gamma_L (st_next s) (igam c0) (iL c0)) τi (- 1) upd false c st) in *.
       assert (HI2 : LsI2 c0 τi ls0).
       { constructor; [constructor|..]; cbn [ls_curr ls_next ls_tau ls_tau_prev ls0].
-        - apply G.
+        - apply Hinv.
         - reflexivity.
         - exists 0%nat. reflexivity.
         - intros E. exfalso. destruct Hτ; lra.
@@ -621,7 +622,8 @@ Section Live.
     rewrite Eq.
     pose proof (PP init_inv i0 c0 i3 c1 s1 E0 Eq) as Hinv.
     assert (G3 : good i3).
-    { destruct Hinv as [Hc Hq Hgl _ _ _ _]. cbn [st_curr] in *. constructor; try assumption. now rewrite Hx3. }
+    { destruct Hinv as [Hc Hq Hgl _ _ _ _]. cbn [st_curr] in *. constructor; try assumption; [|now rewrite Hx3].
+      apply consistent_facts; [exact Hc|now rewrite Hx3]. }
     apply loop_live; [|cbn [st_k]; lia].
     constructor; cbn [st_curr st_np st_k]; [exact Hinv|exact G3|reflexivity|].
     pose proof (fbe_le_Phi0 i3 G3 Hx3). cbn [INR]. lra.
